@@ -176,6 +176,29 @@ func (m *Machine) callFn(fn *ssa.Function, args []Value, env []Value, site ssa.I
 	if fn.Blocks == nil {
 		m.unsupported("function without body: %s", name)
 	}
+	if m.merge != nil && !isScipipeFn(fn) {
+		panic(mergeAbort{"library source interpreted inside a merge scope"})
+	}
+	if !m.NoMerge && m.cur != nil && isScipipeFn(fn) && anySym(args) && mergeable(fn) && (m.merge != nil || hasLoop(fn)) {
+		if r, ok := m.mergedCall(fn, args, env); ok {
+			return r
+		}
+	}
+	return m.callBody(fn, args, env)
+}
+
+func anySym(args []Value) bool {
+	for _, a := range args {
+		if isSym(a) {
+			return true
+		}
+	}
+	return false
+}
+
+// callBody interprets the SSA body of fn.
+func (m *Machine) callBody(fn *ssa.Function, args []Value, env []Value) Value {
+	name := fn.String()
 	if m.Cfg.TraceCalls {
 		m.tracef("call %s", name)
 	}
@@ -312,6 +335,9 @@ func (m *Machine) runFrame(fr *frame) {
 					panic(goPanic{msg: "nil pointer dereference (store)"})
 				}
 				nv := m.get(fr, x.Val)
+				if m.merge != nil {
+					panic(mergeAbort{"store inside a merge scope"})
+				}
 				if m.race != nil && !sameValue(*p, nv) {
 					// (go/ssa lowers `return x` of a named result x into a store of x to
 					// itself, which the compiler does not emit: a store that leaves the cell
